@@ -334,3 +334,56 @@ Theorem exec_checkpoint_skeleton_agrees :
   Gen.Skeleton.skel_execCheckpoint = Db.Skeleton.expected_execCheckpoint.
 Proof. reflexivity. Qed.
 Print Assumptions exec_checkpoint_skeleton_agrees.
+
+(** * Refinement of the byte-level decision to the machine's (Db/VerifyRefine.v)
+
+    [Db.Verify.verify] — the byte-level model of verifyWithExecutor that is compared with db.go
+    on every observed sync step — takes on EVERY input the decision of [Machine.verify], the
+    function the whole-history theorems above are about, on every machine state that abstracts
+    the input: the -wal file is a 32-byte header plus whole frames, salts become generation
+    ids through a map injective on the salts that occur, byte offsets become frame counts.
+    The last hypothesis is the assumption about SQLite under which the machine models
+    lastPageMatch by its salt comparison: a slot in front of the cursor that carries the last
+    file's salts is the frame that file copied.  (Before this theorem the two functions were
+    only compared on observed states: entry machine_verify_agrees, still evaluated on every
+    run.) *)
+From LS Require Db.MachineEntry Db.VerifyRefine.
+
+Theorem verify_refines_machine :
+  forall (data : Type) (ps : N) (hd : list N) (frames : list (list N))
+         (gam : N * N -> nat) (ids : list (N * N)) (pos : N) (last : Verify.l0hdr)
+         (toEnd : bool) (reachedN : N) (fdig : option N) (s : Machine.state data),
+    let w := hd ++ concat frames in
+    length hd = 32%nat ->
+    Forall (fun f => length f = N.to_nat (Reader.frame_size ps)) frames ->
+    (forall p q, In p ids -> In q ids -> gam p = gam q -> p = q) ->
+    In (Bytes.be32 w 16, Bytes.be32 w 20) ids ->
+    In (Verify.l_s1 last, Verify.l_s2 last) ids ->
+    Forall (fun f => In (VerifyRefine.fsalts f) ids) frames ->
+    map fst (Machine.phys data s) = map (fun f => gam (VerifyRefine.fsalts f)) frames ->
+    Machine.gen data s = gam (Bytes.be32 w 16, Bytes.be32 w 20) ->
+    Machine.cgen data s = gam (Verify.l_s1 last, Verify.l_s2 last) ->
+    N.eqb pos 0 = match Machine.l0 data s with nil => true | _ :: _ => false end ->
+    (Verify.l_off last + Verify.l_size last =
+     32 + Reader.frame_size ps * N.of_nat (Machine.cfo data s))%N ->
+    Machine.flag data s = toEnd ->
+    Machine.reached data s = negb (N.eqb reachedN 0) ->
+    (forall r, Reader.read_header w = Reader.HdrOk r -> Reader.r_ps r = ps) ->
+    (forall f fd,
+        nth_error frames (Machine.cfo data s - 1) = Some f ->
+        VerifyRefine.fsalts f = (Verify.l_s1 last, Verify.l_s2 last) -> fdig = Some fd ->
+        existsb (fun pd => N.eqb (Bytes.be32 f 0) (fst pd) && N.eqb fd (snd pd))
+                (Verify.l_pages last) = true) ->
+    forall info,
+      Verify.verify ps pos last toEnd reachedN (Some w) fdig = Verify.VOk info ->
+      MachineEntry.verify_code pos last info =
+      MachineEntry.vans_code (Machine.verify data true true s).
+Proof. exact VerifyRefine.verify_refines_machine_lemma. Qed.
+Print Assumptions verify_refines_machine.
+
+(** the abstraction the entry machine_verify_agrees computes meets the injectivity hypothesis *)
+Theorem verify_refinement_entry_abstraction_injective :
+  forall (ids : list (N * N)) p q,
+    In p ids -> In q ids -> MachineEntry.gen_id ids p = MachineEntry.gen_id ids q -> p = q.
+Proof. exact VerifyRefine.gen_id_injective. Qed.
+Print Assumptions verify_refinement_entry_abstraction_injective.
